@@ -250,3 +250,18 @@ Theorem C06_accessors_parse : forall E neg ds,
 Proof. exact NumberAcc.C06_accessors_parse. Qed.
 Print Assumptions C06_accessors_parse.
 
+
+(* ---- the accessor models are the match arms of src/number.rs as TRANSLATED ON THIS RUN (tools/translate_num.py -> Gen/NumTables.v) ---- *)
+From SJ Require Import Base.Bytes Base.FloatB Model.Value Model.Pointer Model.NumAst Gen.NumTables Proofs.NumberAcc.
+Require Import Lia ZArith.
+From SJ Require Import Proofs.NumAccSrc.
+Theorem C06_accessors_are_source : forall n, default_repr n ->
+  run_acc NUM_is_i64 n = RB (num_is_i64 n) /\ run_acc NUM_is_u64 n = RB (num_is_u64 n) /\ run_acc NUM_is_f64 n = RB (num_is_f64 n) /\
+  run_acc NUM_as_i64 n = RO (match num_as_i64 n with Some z => Some (VI64 z) | None => None end) /\
+  run_acc NUM_as_u64 n = RO (match num_as_u64 n with Some u => Some (VU64 u) | None => None end) /\
+  run_acc NUM_as_f64 n = RO (match num_as_f64 n with Some f => Some (VF64 f) | None => None end) /\
+  run_acc NUM_as_i128 n = RO (match num_as_i128 n with Some z => Some (VI128 z) | None => None end) /\
+  run_acc NUM_as_u128 n = RO (match num_as_u128 n with Some z => Some (VU128 z) | None => None end).
+Proof. exact NumAccSrc.accessor_models_are_translated_source. Qed.
+Print Assumptions C06_accessors_are_source.
+
